@@ -19,29 +19,69 @@ HEADER = [
 ]
 
 
-class Script:
-    """Builds a packed script; run-time values are fed through a Potentiometer on A0 (scripted analogRead)."""
+ROUTINGS = ("constvar", "after", "untaken", "taken", "loop2", "loop0", "fn_called", "fn_uncalled")
 
-    def __init__(self, runtime: bool = False):
+
+class Script:
+    """Builds a packed script.  An argument value reaches its call site by the chosen routing:
+    "lit" a literal; "rt" a run-time value read from a scripted ADC (Potentiometer on A0); or one of ROUTINGS,
+    ways of putting the value into a variable that Python evaluates to the same value but that tempt a
+    transpile-time evaluator (C03): a constant variable, a variable re-assigned after the site, re-assigned
+    before it in an untaken / taken branch, in a loop body that runs 2 / 0 times, in a called / uncalled function."""
+
+    def __init__(self, runtime=False):
         self.lines = list(HEADER)
-        self.runtime = runtime
+        self.routing = runtime if isinstance(runtime, str) else ("rt" if runtime else "lit")
+        self.runtime = self.routing == "rt"
         self.feed: list[int] = []
         self.nvar = 0
-        if runtime:
+        self.post: list[str] = []
+        if self.routing != "lit":
             self.lines.append('feed = Potentiometer("A0")')
 
-    def val(self, v: int) -> str:
-        """An integer argument: a literal, or (runtime mode) a variable read from the scripted ADC."""
-        if not self.runtime:
-            return repr(int(v))
-        self.nvar += 1
-        name = f"rv{self.nvar}"
+    def _read(self, v: int) -> str:
         self.feed.append(int(v))
-        self.lines.append(f"{name} = feed.read()")
+        return "feed.read()"
+
+    def val(self, v) -> str:
+        """An argument: a literal, a run-time value, or a variable set up by the routing."""
+        r = self.routing
+        if r == "lit" or (r == "rt" and not isinstance(v, int)):
+            return repr(v)
+        self.nvar += 1
+        if r == "rt":
+            name = f"rv{self.nvar}"
+            self.lines.append(f"{name} = {self._read(v)}")
+            return name
+        name = f"cv{self.nvar}"
+        other = v + 1
+        L = self.lines
+        if r == "constvar":
+            L.append(f"{name} = {v!r}")
+        elif r == "after":
+            L.append(f"{name} = {v!r}")
+            self.post.append(f"{name} = {other!r}")
+        elif r == "untaken":
+            L += [f"{name} = {v!r}", f"if {self._read(0)} > 0:", f"    {name} = {other!r}"]
+        elif r == "taken":
+            L += [f"{name} = {other!r}", f"if {self._read(1)} > 0:", f"    {name} = {v!r}"]
+        elif r == "loop2":
+            L += [f"{name} = {v - 2!r}", f"for lk{self.nvar} in range(2):", f"    {name} += 1"]
+        elif r == "loop0":
+            L += [f"{name} = {v!r}", f"for lk{self.nvar} in range({self._read(0)}):", f"    {name} += 1"]
+        elif r == "fn_called":
+            L += [f"def set{self.nvar}():", f"    global {name}", f"    {name} = {v!r}", f"{name} = {other!r}", f"set{self.nvar}()"]
+        elif r == "fn_uncalled":
+            L += [f"def set{self.nvar}():", f"    global {name}", f"    {name} = {other!r}", f"{name} = {v!r}"]
+        else:
+            raise ValueError(r)
         return name
 
     def add(self, line: str) -> None:
         self.lines.append(line)
+        if self.post:
+            self.lines += self.post
+            self.post = []
 
     def mark(self, inst: int, k: int, getters: list[str]) -> None:
         self.lines.append(f'mon.write("#{inst}.{k}")')
@@ -231,11 +271,14 @@ def servo_render(cases, runtime: bool) -> Script:
         getters = [f"{name}.read()", f"{name}.read_us()"]
         s.mark(i, 0, getters)
         for k, c in enumerate(case["h"], 1):
-            if runtime and c["v"] % 100 == 0:
+            if s.routing == "rt" and c["v"] % 100 == 0:
                 v = s.val(c["v"] // 100)              # tenths through the ADC feed, scaled at run time
                 s.add(f"{name}.{c['act']}({v} * 0.1)")
-            else:
+            elif s.routing in ("lit", "rt"):
                 s.add(f"{name}.{c['act']}({_milli_lit(c['v'])})")
+            else:
+                m = c["v"]
+                s.add(f"{name}.{c['act']}({s.val(m // 1000 if m % 1000 == 0 else m / 1000.0)})")
             s.mark(i, k, getters)
     return s
 
@@ -301,9 +344,11 @@ def motor_render(histories, runtime: bool) -> Script:
             act, a = c["act"], c["a"]
 
             def sp(u):
-                if runtime and u % 20 == 0:
+                if s.routing == "rt" and u % 20 == 0:
                     return f"({s.val(u // 20)} * 0.001)"     # thousandths through the ADC feed
-                return _speed_lit(u)
+                if s.routing in ("lit", "rt"):
+                    return _speed_lit(u)
+                return s.val(u / MOTOR_ONE)
 
             if act in ("stop", "coast", "invert"):
                 s.add(f"{name}.{act}()")
